@@ -50,4 +50,10 @@ structure HandlerFact where
   gateFirst : Bool
 deriving DecidableEq, Repr
 
+/-- how a profile storage statement selects its row -/
+inductive KeyUse
+  | exactKey     -- `… where username = <param>` / upsert on the username key with `values(<param>, …)`
+  | unknown      -- anything else (pattern match, case folding, collation, extra conditions, …)
+deriving DecidableEq, Repr
+
 end KM.AdminSite
